@@ -11,6 +11,7 @@ from __future__ import annotations
 
 import collections
 import hashlib
+import os
 import sys
 import threading as _real_threading
 import _thread
@@ -99,6 +100,7 @@ class Sched:
         self.probes: collections.Counter = collections.Counter()
         self.deadlock_info = None
         self.trace_files = frozenset(trace_files)
+        self._trace_cache: dict = {}
         self.line_prob = line_prob
         self.effect_hook = None
         self.switch_hook = None  # callable(from_task, to_task)
@@ -414,9 +416,17 @@ class Sched:
 
     # --------------------------------------------------------- line tracing
     def _tracer(self, frame, event, arg):
-        if frame.f_code.co_filename in self.trace_files:
+        # entries of trace_files ending in a path separator are directory
+        # prefixes (every source file below them is pre-emptible)
+        fn = frame.f_code.co_filename
+        if fn in self.trace_files:
             return self._local_tracer
-        return None
+        hit = self._trace_cache.get(fn)
+        if hit is None:
+            hit = any(p.endswith(os.sep) and fn.startswith(p)
+                      for p in self.trace_files)
+            self._trace_cache[fn] = hit
+        return self._local_tracer if hit else None
 
     def _local_tracer(self, frame, event, arg):
         if event == "line" and not self.aborting:
